@@ -161,9 +161,97 @@ fn f16() -> bool {
     fwd.is_ok() && matches!(bwd, Err(e) if matches!(e.error, NonLinearSystemError::DidNotConverge))
 }
 
+/// F17: a contradictory pair (its own variable) next to an independent perpendicularity request whose
+/// guess is collapsed (a singular solution, reached slowly): each part solves alone, the union ends
+/// in DidNotConverge.
+fn f17() -> bool {
+    let l0 = DatumLineSegment::new(pt(0), pt(1));
+    let l1 = DatumLineSegment::new(pt(1), pt(2));
+    let slow = vec![hp(Constraint::LinesAtAngle(l0, l1, kcl_ezpz::datatypes::AngleKind::Perpendicular))];
+    let v = -0.03419615574031722;
+    let gs = guesses(&[v, v, 0.04409868173165875, -0.02522146741854152, v, v, 0.0]);
+    let contra = vec![hp(Constraint::Fixed(6, 0.0)), hp(Constraint::Fixed(6, 6.0))];
+    let a = solve(&slow, gs.clone(), Config::default());
+    let b = solve(&contra, gs.clone(), Config::default());
+    let mut all = slow.clone();
+    all.extend(contra.clone());
+    let u = solve(&all, gs, Config::default());
+    a.is_ok() && b.is_ok() && matches!(u, Err(e) if matches!(e.error, NonLinearSystemError::DidNotConverge))
+}
+
 fn main() {
     let args: Vec<String> = std::env::args().collect();
     std::panic::set_hook(Box::new(|_| {}));
+    if args.len() >= 3 && args[1] == "replay" {
+        // repro replay <replay.json>: re-run the recorded failing system on the real code and print
+        // what happens round by round (largest error, step norm) and the outcome
+        let text = std::fs::read_to_string(&args[2]).expect("cannot read the replay file");
+        let grab = |key: &str| -> Vec<String> {
+            // minimal JSON digging: the array of strings after "key": [
+            let Some(i) = text.find(&format!("\"{key}\": [")) else { return vec![] };
+            let rest = &text[i..];
+            let end = rest.find(']').unwrap_or(rest.len());
+            rest[..end].split('"').enumerate().filter(|(k, _)| k % 2 == 1).map(|(_, s)| s.to_string()).skip(1).collect()
+        };
+        let reqs: Vec<ConstraintRequest> = grab("requests")
+            .iter()
+            .filter_map(|r| {
+                let (p, c) = r.split_once(' ')?;
+                Some(ConstraintRequest::new(ezpz_verif_harness::codec::dec_constraint(c)?, p.parse().ok()?))
+            })
+            .collect();
+        // guesses: [[id, "bits", value], ...]
+        let mut guesses: Vec<(u32, f64)> = Vec::new();
+        if let Some(i) = text.find("\"guesses\": [") {
+            let rest = &text[i + 12..];
+            let toks: Vec<&str> = rest.split(|c: char| c == '[' || c == ']' || c == ',' || c.is_whitespace()).filter(|t| !t.is_empty()).collect();
+            let mut k = 0;
+            while k + 2 < toks.len() {
+                let (Ok(id), Some(bits)) = (toks[k].parse::<u32>(), toks[k + 1].trim_matches('"').parse::<u64>().ok()) else { break };
+                guesses.push((id, f64::from_bits(bits)));
+                k += 3;
+            }
+        }
+        println!("{} requests, {} guesses", reqs.len(), guesses.len());
+        kcl_ezpz::verif_hooks::trace_start();
+        let r = solve(&reqs, guesses.clone(), Config::default());
+        for e in kcl_ezpz::verif_hooks::trace_take() {
+            match e {
+                kcl_ezpz::verif_hooks::TraceEvent::Iter { iteration, r, .. } => {
+                    println!("  round {iteration}: largest error {:.3e}", r.iter().fold(0.0f64, |a, v| a.max(v.abs())));
+                }
+                kcl_ezpz::verif_hooks::TraceEvent::Step { d, .. } => {
+                    println!("           step norm {:.3e}", d.iter().fold(0.0f64, |a, v| a.max(v.abs())));
+                }
+                _ => {}
+            }
+        }
+        match r {
+            Ok(o) => println!("Ok: iterations {} unsatisfied {:?} priority {} warnings {}", o.iterations(), o.unsatisfied(), o.priority_solved(), o.warnings().len()),
+            Err(f) => println!("Err: {:?} (vars {}, eqs {}, warnings {})", f.error, f.num_vars, f.num_eqs, f.warnings.len()),
+        }
+        // the variable-disjoint parts of the system, each solved on its own
+        let n = guesses.len();
+        let mut parent: Vec<usize> = (0..n).collect();
+        fn find(p: &mut Vec<usize>, i: usize) -> usize { if p[i] != i { let r = find(p, p[i]); p[i] = r; } p[i] }
+        for r in &reqs {
+            let ids: Vec<usize> = kcl_ezpz::verif_hooks::nonzeroes(r.constraint()).iter().flatten().map(|i| *i as usize).filter(|i| *i < n).collect();
+            for w in ids.windows(2) { let (a, b) = (find(&mut parent, w[0]), find(&mut parent, w[1])); parent[a] = b; }
+        }
+        let mut roots: Vec<usize> = (0..n).map(|i| find(&mut parent, i)).collect();
+        roots.sort(); roots.dedup();
+        if roots.len() > 1 && roots.len() <= 400 {
+            for root in roots {
+                let part: Vec<ConstraintRequest> = reqs.iter().filter(|r| kcl_ezpz::verif_hooks::nonzeroes(r.constraint()).iter().flatten().any(|i| (*i as usize) < n && find(&mut parent, *i as usize) == root)).copied().collect();
+                if part.is_empty() { continue; }
+                match solve(&part, guesses.clone(), Config::default()) {
+                    Ok(o) => println!("  part rooted at variable {root} ({} requests) alone: Ok, iterations {}, unsatisfied {:?}", part.len(), o.iterations(), o.unsatisfied()),
+                    Err(f) => println!("  part rooted at variable {root} ({} requests) alone: Err {:?}", part.len(), f.error),
+                }
+            }
+        }
+        return;
+    }
     if args.len() >= 3 && args[1] == "finding" {
         let r = match args[2].as_str() {
             "F5-guess-ids-ignored" => f5(),
@@ -173,6 +261,7 @@ fn main() {
             "F14-point-on-arc-outside-sweep" => f14(),
             "F15-underdetermined-lands-farther-than-1.5x" => f15(),
             "F16-null-space-drift-on-inconsistent-rank-deficient" => f16(),
+            "F17-union-exhausts-iterations-beside-an-inconsistent-part" => f17(),
             other => {
                 println!("UNKNOWN-FINDING {other}");
                 std::process::exit(2);
